@@ -7,7 +7,7 @@ ID = 'C26'
 LEVEL = 'exploration'
 TECHNIQUE = 'generated programs executed by an independent reference interpreter with a read/write trace; trace sets must be subsets of loki defines/uses/live sets per node'
 RULE = ('FProg routines (scalars, arrays, counted/while loops incl. zero-trip, IF/ELSE IF, one-line IF, SELECT CASE, WHERE/ELSEWHERE, ASSOCIATE blocks '
-        'with whole-variable selectors around statement ranges (30% of the cases), calls to generated callees whose dummies have every intent '
+        'with whole-variable selectors around statement ranges (30% of the cases), DO bounds that read intent(in) scalars, calls to generated callees whose dummies have every intent '
         'incl. none, function references) are interpreted on 4 input vectors with a trace; each generated statement/block is mapped to its loki '
         'node through the renderer line map; for every dynamic execution of the node: variables written (also inside callees, via argument '
         'association) must be in defines_symbols, variables read before any write to that variable within the node must be in uses_symbols, '
